@@ -337,8 +337,18 @@ func run(prop, tier string, c *core.Choices, trace bool) *harness.RunResult {
 		}
 	}
 	ann := map[string]string{}
+	args := map[string]interface{}{}
 	if len(lists) > 0 {
-		b, _ := json.Marshal(map[string]interface{}{"request_ip_range": lists})
+		args["request_ip_range"] = lists
+	}
+	staleCommon := c.Prob(1, 6)
+	if staleCommon {
+		// the pod was created from the exported manifest of another pod: its args annotation already carries that pod's
+		// "common" section; what the plugin gets must still be exactly what was allocated for THIS pod
+		args["common"] = map[string]interface{}{"ipinfos": []map[string]interface{}{{"ip": "10.99.0.9/24", "vlan": 7, "gateway": "10.99.0.1"}}}
+	}
+	if len(args) > 0 {
+		b, _ := json.Marshal(args)
 		ann[annArgs] = string(b)
 	}
 	kind := c.Choose(2) // 0 bare pod, 1 statefulset pod
@@ -441,6 +451,9 @@ func run(prop, tier string, c *core.Choices, trace bool) *harness.RunResult {
 	res.Nontrivial = true
 	res.Sig = fmt.Sprintf("%s|%v", cfgJSON, lists) // distinct generated configurations and requests
 	res.Stats["c13.bound-pods"]++
+	if staleCommon {
+		res.Stats["c13.annotation-carried-another-pods-ipinfos"]++
+	}
 	if w.bindFailed {
 		res.Stats["c13.bound-at-second-attempt"]++
 		if w.restarted {
